@@ -272,6 +272,8 @@ def finish(pid, tier, seed, meta, parts, wall, replayers=None, crashed=None):
         lines.append(f"VIOLATION property={pid} replay={path} obligation=\"{label}\"{suffix}")
     if violations:
         exit_code = 1
+        for o in undecided[:5]:
+            lines.append(f"UNDECIDED property={pid} obligation=\"{o['label']}\" {o['detail'][:1500]}")
     n_ob = len(obligations)
     n_dis = sum(1 for o in obligations if o["status"] == "discharged")
     if exit_code == 0:
